@@ -222,6 +222,27 @@ def check_commit(cfg, w, rep, lf):
                                                                          "reaches " + ", ".join(leaks) if leaks else "does not build Error::SizeMismatch"),
                               loc=blk_loc(body, fail_tgt), config=cfg, rule="g2-failure-arm")
 
+    # ---- a rejected commit performs no filesystem mutation at all ("maps nothing", previous mapping untouched) ----
+    fail_targets = [ft for _, _, ft in g1] + [ft for _, ft in g2]
+    for ft in fail_targets:
+        reach = cf.reachable(ft)
+        muts = []
+        for e in w.own_effects(lf):
+            if e.body is body and e.blk in reach and e.mutating:
+                muts.append((e.kind, e.loc()))
+        for bb, bblk, tt, gg in prog.local_calls(lf):
+            if bb is body and bblk.i in reach:
+                m = [e for e in w.reach_effects(gg) if e.mutating]
+                if m:
+                    muts.append(("call %s (%s)" % (short(gg.path), ", ".join(sorted({e.kind for e in m}))), span_str(tt.span)))
+        if muts:
+            rep.violation("reject-mutates:%s" % key,
+                          "commit `%s` performs filesystem mutations on a rejection path (%s): a rejected commit must leave every existing mapping and "
+                          "its content untouched" % (short(lf.path), "; ".join("%s at %s" % m for m in muts[:3])),
+                          loc=muts[0][1], config=cfg, rule="rejection-has-no-effect")
+        else:
+            rep.ob(cfg, "rejection-has-no-effect", "%s@bb%s" % (key, "x"), "rejection arm of `%s` reaches no mutating effect" % short(lf.path))
+
     # ---- the counter is what the writer's io impl accumulates (link to C02 c) ----
     # delegated returns (insert's result) are fine: they are the insertion itself
     for rd in deleg:
